@@ -7,6 +7,7 @@
 // raw pointers collected from the leaf arrays -- FEAT's own copy/set_vec are never used for the oracle.
 #include "c04_common.hpp"
 #include <map>
+#include <kernel/util/random.hpp>
 #include <functional>
 #include <type_traits>
 #include <sstream>
@@ -18,9 +19,9 @@ namespace
   enum Op
   {
     AXPY, SCALE, CPROD, CINV, COPY, COPYFULL, FORMAT, DOT, TDOT, NORM2, NORM2SQR, MAXABS, MINABS, MAXE, MINE,
-    CLONE_DEEP, CLONE_WEAK, CLONE_SHALLOW, TO_DV, FROM_DV,
+    CLONE_DEEP, CLONE_WEAK, CLONE_SHALLOW, TO_DV, FROM_DV, FORMAT_RNG, CONV_DV, SELF_CONVERT,
     // DenseVectorBlocked only
-    AXPYB, SCALEB, DOTB, TDOTB, NORM2B, NORM2SQRB, MAXABSB, MINABSB, MAXEB, MINEB, CCOPY, CCOPYTO,
+    AXPYB, SCALEB, DOTB, TDOTB, NORM2B, NORM2SQRB, MAXABSB, MINABSB, MAXEB, MINEB, CCOPY, CCOPYTO, CONV_FROM_DV, INFLATE,
     NUM_OPS
   };
 
@@ -46,6 +47,9 @@ namespace
     {"clone(Shallow)", 1, false, false, false, false},
     {"DenseVector::copy(V)", 1, false, false, false, false},
     {"DenseVector::copy_inv(V)", 1, true, false, false, false},
+    {"format(Random,min,max)", 1, false, true, false, false},
+    {"DenseVector::convert(V)", 1, false, false, false, false},
+    {"convert(self)", 1, false, false, false, false},
     {"axpy_blocked", 2, true, true, false, true},
     {"scale_blocked", 2, true, true, false, true},
     {"dot_blocked", 2, false, false, false, true},
@@ -58,16 +62,18 @@ namespace
     {"min_element_blocked", 1, false, false, true, true},
     {"component_copy", 1, true, true, false, true},
     {"component_copy_to", 1, false, true, false, true},
+    {"DenseVectorBlocked::convert(DenseVector) / DenseVectorBlocked(DenseVector)", 1, false, false, false, true},
+    {"DenseVector::inflate_to_blocks", 1, false, false, false, true},
   };
 
   // how an operand object came into being (pattern "derived objects"): the complete operation set also runs on objects
   // that were move-assigned over a used object, cloned (deep/weak), cloned INTO a used object that shares its old storage
   // with a bystander, or converted from the other floating point type
-  enum Deriv { D_NONE = 0, D_MOVE_ASSIGN, D_CLONE_DEEP, D_CLONE_WEAK, D_CLONE_INTO, D_CONVERT, NUM_DERIV };
-  const char* deriv_name[NUM_DERIV] = {"fresh", "move-assigned over a used object", "deep clone", "weak clone", "clone(other) into a used object with a storage-sharing bystander", "convert() from the other data type"};
+  enum Deriv { D_NONE = 0, D_MOVE_ASSIGN, D_CLONE_DEEP, D_CLONE_WEAK, D_CLONE_INTO, D_CONVERT, D_CLONE_INTO1, NUM_DERIV };
+  const char* deriv_name[NUM_DERIV] = {"fresh", "move-assigned over a used object", "deep clone", "weak clone", "clone(other) into a used object with a storage-sharing bystander", "convert() from the other data type", "one-argument clone(other) into a used object"};
 
-  enum Real { R_PLAIN = 0, R_SHALLOW = 1, R_RANGE = 2, R_PARTIAL = 3 };
-  const char* real_name[4] = {"same-object", "shallow-clone", "range-view", "partial(first component shared)"};
+  enum Real { R_PLAIN = 0, R_SHALLOW = 1, R_RANGE = 2, R_PARTIAL = 3, R_WRAP = 4, NUM_REAL = 5 };
+  const char* real_name[NUM_REAL] = {"same-object", "shallow-clone", "range-view", "partial(first component shared)", "(size,data*) constructor wrapping the same array"};
 
   // ------------------------------------------------------------------------------------------------ kinds
   template<typename V> struct Kind;
@@ -83,6 +89,7 @@ namespace
     static V make(int s) { return V(Index(s)); }
     static V make_base(int s) { return V(Index(s + 2)); }
     static V view(V& base, int s) { return V(base, Index(s), Index(1)); }
+    static V wrap(V& rep, int s) { return V(Index(s), rep.elements()); }
     static bool norm_exact() { return true; }
   };
 
@@ -97,6 +104,7 @@ namespace
     static V make(int s) { return V(Index(s)); }
     static V make_base(int s) { return V(Index(s + 2)); }
     static V view(V& base, int s) { return V(base, Index(s), Index(1)); }
+    static V wrap(V& rep, int s) { return V(Index(s), rep.template elements<Perspective::pod>()); }
     static bool norm_exact() { return true; }
   };
 
@@ -131,6 +139,22 @@ namespace
     static bool norm_exact() { return false; }
   };
 
+  template<typename A>
+  struct Kind<TupleVector<A>>
+  {
+    typedef TupleVector<A> V;
+    static constexpr bool composed = true, ranged = false, blocked = false;
+    static constexpr int BS = 1;
+    static int num_shapes(bool th) { return th ? 8 : 6; }
+    static std::string shape_name(int s) { return "size=" + std::to_string(s); }
+    static V make(int s) { return V(A(Index(s))); }
+    static V make_base(int s) { return make(s); }
+    static V view(V&, int s) { return make(s); }
+    static bool norm_exact() { return false; }
+  };
+
+  template<typename T, typename = void> struct HasEq { static constexpr bool value = false; };
+  template<typename T> struct HasEq<T, decltype(void(std::declval<const T&>() == std::declval<const T&>()))> { static constexpr bool value = true; };
   template<typename T> struct IsDVB { static constexpr bool value = false; };
   template<typename DT, typename IT, int BS> struct IsDVB<DenseVectorBlocked<DT, IT, BS>> { static constexpr bool value = true; };
 
@@ -199,6 +223,15 @@ namespace
         V* src = add(K::make(shape)); mark(*src, 555);
         return add(src->clone(deriv == D_CLONE_DEEP ? CloneMode::Deep : CloneMode::Weak));
       }
+      case D_CLONE_INTO1:
+      {
+        V* src = add(K::make(shape)); mark(*src, 555);
+        V* t = add(K::make(other));
+        t->clone(*src);
+        { std::vector<DT*> q; collect(*t, q); bool ok = q.size() == size_t(src->template size<Perspective::pod>()); for(DT* x : q) if(!(*x == DT(555))) ok = false;
+          c.check(ok, kname + ".clone(other): values", "one-argument clone(other) did not deliver the source values"); }
+        return t;
+      }
       case D_CLONE_INTO:
       {
         V* src = add(K::make(shape)); mark(*src, 555);
@@ -263,6 +296,9 @@ namespace
           case R_SHALLOW: o[p] = add(rep[cl]->clone(CloneMode::Shallow)); break;
           case R_RANGE:
             if constexpr(K::ranged) o[p] = add(K::view(*base[cl], shape));
+            break;
+          case R_WRAP:
+            if constexpr(K::ranged) o[p] = add(K::wrap(*rep[cl], shape));
             break;
           case R_PARTIAL:
             if constexpr(K::composed)
@@ -487,6 +523,16 @@ namespace
             if(yp[i] == ptr[0][i]) distinct = false; else shared = false;
           }
           c.check(sz && vals, key("clone differs"), "the clone does not hold the same scalars");
+          if constexpr(HasEq<V>::value)
+          {
+            c.check(y == *o[0], key("operator=="), "a clone does not compare equal to its source");
+            if(n > 0 && op != CLONE_SHALLOW)
+            {
+              DT keep = *yp[n - 1]; *yp[n - 1] = (keep == DT(0)) ? DT(1) : -keep;
+              c.check(!(y == *o[0]), key("operator== (inequality)"), "vectors differing in the last entry compare equal");
+              *yp[n - 1] = keep;
+            }
+          }
           if(n > 0)
             c.check(op == CLONE_SHALLOW ? shared : distinct, key("clone memory"), "shallow clone must share, deep/weak clone must not share the value arrays");
           y.format(DT(5));
@@ -515,6 +561,53 @@ namespace
         for(size_t i = 0; i < n; ++i) { exp_r[i] = DT(value(vs, 1, Index(i))); d.elements()[i] = exp_r[i]; }
         d.copy_inv(*o[0]);
         for(size_t i = 0; i < n; ++i) if(!(d.elements()[i] == exp_r[i])) { c.fail(key("source modified"), "copy_inv changed its source"); break; }
+        break;
+      }
+      case FORMAT_RNG:
+      {
+        // random fill: every entry lies in [min,max] (the interval varies with the scalar), reproducible for a given seed
+        const DT lo = DT(-1) + a, hi = DT(2) + a * a;
+        Random rng(Random::SeedType(17 + ai));
+        o[0]->format(rng, lo, hi);
+        bool ok = true; std::vector<DT> first(n);
+        for(size_t i = 0; i < n; ++i) { first[i] = *ptr[0][i]; if(!(first[i] >= lo && first[i] <= hi)) ok = false; }
+        c.check(ok, key("value outside [min,max]"), [&]{ return "format(rng," + fmt(lo) + "," + fmt(hi) + ") produced " + fmtv(first); });
+        Random rng2(Random::SeedType(17 + ai));
+        o[0]->format(rng2, lo, hi);
+        bool same_again = true;
+        for(size_t i = 0; i < n; ++i) if(!(*ptr[0][i] == first[i])) same_again = false;
+        c.check(same_again, key("not reproducible"), "the same seed gave different entries");
+        for(size_t i = 0; i < n; ++i) pre[0][i] = *ptr[0][i];
+        break;
+      }
+      case CONV_DV:
+      {
+        // leaf vectors are taken over (shared memory), composed vectors are flattened into a new array
+        DenseVector<DT, IT> d(Index(3), DT(-9));
+        d.convert(*o[0]);
+        bool ok = (size_t(d.size()) == n);
+        for(size_t i = 0; ok && i < n; ++i) if(!(d.elements()[i] == pre[0][i])) ok = false;
+        c.check(ok, key("flattening differs"), "DenseVector::convert(V) does not hold the scalars in flattened order");
+        if(ok && n > 0)
+        {
+          const bool shared = (d.elements() == ptr[0][0]);
+          c.check(shared == !K::composed, key("convert memory"), "convert() of a leaf vector shares its array, convert() of a composed vector copies");
+          d.format(DT(6));
+          bool ind = true;
+          for(size_t i = 0; i < n; ++i) if(!(*ptr[0][i] == (shared ? DT(6) : pre[0][i]))) ind = false;
+          c.check(ind, key("convert independence"), "writing through the converted vector had the wrong effect on the source");
+          for(size_t i = 0; i < n; ++i) pre[0][i] = *ptr[0][i];
+        }
+        break;
+      }
+      case SELF_CONVERT:
+      {
+        o[0]->convert(*o[0]);
+        std::vector<DT*> now; collect(*o[0], now);
+        bool ok = now.size() == n;
+        for(size_t i = 0; ok && i < n; ++i) if(!(*now[i] == pre[0][i])) ok = false;
+        c.check(ok, key("self-convert lost the data"), "v.convert(v) must leave v as it was");
+        ptr[0] = now;
         break;
       }
       default:
@@ -623,6 +716,35 @@ namespace
             c.check(got[j] == ref, key("wrong value"), [&]{
               return "component " + std::to_string(j) + ": got " + fmt(got[j]) + " expected " + fmt(ref) + " for " + fmtv(pre[0]); });
           }
+          break;
+        }
+        case CONV_FROM_DV:
+        {
+          DenseVector<DT, IT> d{Index(n)};
+          for(size_t i = 0; i < n; ++i) d.elements()[i] = DT(value(vs, 1, Index(i)));
+          V t{Index(1)};
+          t.convert(d);
+          V u(d);
+          bool ok = size_t(t.template size<Perspective::pod>()) == n && size_t(u.template size<Perspective::pod>()) == n && size_t(t.size()) == nb;
+          for(size_t i = 0; ok && i < n; ++i) if(!(t.template elements<Perspective::pod>()[i] == d.elements()[i]) || !(u.template elements<Perspective::pod>()[i] == d.elements()[i])) ok = false;
+          c.check(ok, key("wrong element"), "the blocked vector made from a DenseVector does not hold its scalars");
+          if(ok && n > 0)
+          {
+            c.check(t.template elements<Perspective::pod>() == d.elements() && u.template elements<Perspective::pod>() == d.elements(), key("convert memory"), "convert(DenseVector) takes the array over (shared)");
+            t.format(DT(4));
+            bool sh = true; for(size_t i = 0; i < n; ++i) if(!(d.elements()[i] == DT(4))) sh = false;
+            c.check(sh, key("convert independence"), "writing through the converted vector did not reach the shared array");
+          }
+          break;
+        }
+        case INFLATE:
+        {
+          DenseVector<DT, IT> d{Index(nb)};
+          for(size_t i = 0; i < nb; ++i) d.elements()[i] = DT(value(vs, 1, Index(i)));
+          V t = d.template inflate_to_blocks<BS>();
+          bool ok = size_t(t.size()) == nb;
+          for(size_t i = 0; ok && i < n; ++i) if(!(t.template elements<Perspective::pod>()[i] == d.elements()[i / size_t(BS)])) ok = false;
+          c.check(ok, key("wrong element"), "inflate_to_blocks does not fill every block with the scalar entry");
           break;
         }
         case CCOPY: case CCOPYTO:
@@ -1017,13 +1139,15 @@ namespace
         }
         for(int pj = 0; pj < num_parts(od.arity); ++pj)
         {
-          for(int real = 0; real < 4; ++real)
+          for(int real = 0; real < NUM_REAL; ++real)
           {
             const bool alias = part_has_alias(od.arity, pj);
             if(real == R_SHALLOW && !alias) continue;            // identical to same-object when nothing is shared
             if(real == R_PARTIAL && (!alias || !K::composed)) continue;
+            if(real == R_WRAP && (!alias || !K::ranged)) continue;
             if(real == R_RANGE && (!K::ranged || flat == 0)) continue; // a ranged view needs size > 0
             if(real == R_RANGE && (op == CLONE_WEAK || op == CLONE_SHALLOW)) continue; // asserted: ranged sources need deep cloning
+            if(real == R_RANGE && (op == CONV_DV || op == SELF_CONVERT)) continue;         // asserted: assign/convert is forbidden with ranged sources
             // value sets
             std::vector<int> vss = {VS_DYADIC, VS_ZEROS, VS_SPREAD, VS_ROUND, VS_ROT, VS_NEG, VS_POS, VS_EXTREME};
             // selection operations: every rank permutation of the magnitudes x every sign mask
@@ -1037,10 +1161,10 @@ namespace
             for(int vs : vss)
             {
               // sign masks only matter for the target operand: restrict them to ops that read the target
-              if(vs >= VS_SIGN0 && (op == SCALE || op == CPROD || op == CINV || op == COPY || op == COPYFULL || op == FORMAT || op == FROM_DV || op == SCALEB)) continue;
+              if(vs >= VS_SIGN0 && (op == FORMAT_RNG || op == INFLATE || op == CONV_FROM_DV || op == SCALE || op == CPROD || op == CINV || op == COPY || op == COPYFULL || op == FORMAT || op == FROM_DV || op == SCALEB)) continue;
               // extreme magnitudes only where the result is a single IEEE operation or a selection (sums would overflow)
               if(vs == VS_EXTREME && !(op == SCALE || op == CPROD || op == CINV || op == COPY || op == COPYFULL || selection || op == CLONE_DEEP || op == CLONE_WEAK || op == CLONE_SHALLOW
-                || op == TO_DV || op == FROM_DV || op == SCALEB || op == CCOPY || op == CCOPYTO)) continue;
+                || op == TO_DV || op == FROM_DV || op == SCALEB || op == CCOPY || op == CCOPYTO || op == CONV_DV || op == SELF_CONVERT || op == CONV_FROM_DV || op == INFLATE)) continue;
               for(int deriv = 0; deriv < NUM_DERIV; ++deriv)
               for(int ai = 0; ai < (od.alpha ? num_alphas : 1); ++ai)
               {
@@ -1049,6 +1173,7 @@ namespace
                 if(deriv != D_NONE && od.alpha && !(ai == 0 || ai == 3 || ai == 7)) continue;
                 if((op == CCOPY || op == CCOPYTO) && ai >= K::BS) continue;   // alpha index = component index
                 if(op == FORMAT && ai >= 4) continue;
+                if(op == FORMAT_RNG && !(ai == 0 || ai == 2 || ai == 4)) continue;
                 if(!c.want()) continue;
                 c.desc([&]{
                   return kname + " " + od.name + " " + K::shape_name(shape) + " alias=" + part_name(od.arity, pj) + " realisation=" + real_name[real]
@@ -1074,6 +1199,8 @@ namespace
   }
 }
 
+#include "c04_sections.hpp"
+
 int main(int argc, char** argv)
 {
   FEAT::Runtime::ScopeGuard guard(argc, argv);
@@ -1082,7 +1209,7 @@ int main(int argc, char** argv)
     "[same object | shallow clone | ranged views of one base | composed vector sharing only its first component], value set, scalar). "
     "A case is non-trivial iff the flattened length is >= 1; hashed by all enumeration coordinates.";
   spec.bounds_quick = "kinds: DV<double|float> (Index), DV<float,u32>, DVB<double,2|3>, DVB<float,2>, DVB<double,u32,3>, Tuple<DV,DVB2><double|float>, Power<DV,2|3><double>, Power<DVB2,2><float>, Tuple<Power<DV,2>,DV><double>; "
-    "DV length 0..20, DVB blocks 0..7, power sub-size 0..6, 10 tuple shapes; 32 operations; all set partitions of 2/3 operands x 2-4 realisations; "
+    "additionally: format(Random), DenseVector::convert(V), convert(self), DVB::convert(DV)/DVB(DV), inflate_to_blocks, operator==, (size,data*) wrapping constructor as alias realisation, one-argument clone(other), Power<DV,1> and Tuple<DVB2> on their own, Scatter/GatherAxpy of DV/DVB (all dof maps incl. repeated dofs), permute of DV/DVB/SparseVector/SparseVectorBlocked (all permutations n<=4 x all stored sets), sparse vectors of size 2600 grown to 1000/1001/2001/999 entries in 4 write orders x 17 first observations; DV length 0..20, DVB blocks 0..7, power sub-size 0..6, 10 tuple shapes; 32 operations; all set partitions of 2/3 operands x 2-4 realisations; "
     "value sets dyadic, dyadic-rotated, dyadic+zeros, spread 2^+-26, rounding, all sign masks for flat length <= 6, all (rank permutation x sign mask) for flat length <= 5 in the min/max operations; 9 scalars; "
     "every case runs the operation twice on the same objects; operands also as derived objects (move-assigned, deep/weak clone, clone-into with bystander, convert from the other data type); value sets also all-negative, all-positive, extreme magnitudes (max/2, min normal, denormals) for the single-rounding and selection operations; sparse vectors (SparseVector<double|float|double,u32>, SparseVectorBlocked<double,2>, <float,3>, <float,u32,2>; the u32 kinds one size smaller): size 0..4 all histories over {set(i), S=used_elements, R=four reductions} up to length size+2, each followed on a FRESH replay by every "
     "first observation (4 reductions, used_elements, indices, elements, sort, clone, ==, write/read, <<, format, move, operator()(i) for every i); size 5: all histories over {set(i), S} up to length 7";
@@ -1092,7 +1219,8 @@ int main(int argc, char** argv)
     "== is numeric equality (-0 == +0): the r==x branch of axpy yields r*(1+a) = -0 where r+a*r = +0",
     "excluded: min/max(_abs)_element on vectors with an empty leaf (kernels read x[0]); component_invert with zero denominators; ranged views of length 0 (asserted); overlapping-but-unequal ranges (not permitted by the kernels' pointer test)",
     "norm2sqr is sqr(sqrt(sum)) by design of the leaf vectors, composed norm2 is sqrt of the sum of those: compared with 4(n+4) eps tolerance; leaf norm2 on exact alphabets is compared with == against the correctly rounded sqrt",
-    "clone modes Layout/Allocate leave values undefined and are not checked here"};
+    "clone modes Layout/Allocate leave values undefined and are not checked here",
+    "outside C04 (anchor code not exercised on purpose): read_from/write_out(file)/serialize/deserialize/checkpoint members of the vector classes (C05), operator<< of the dense vectors and bytes() (printing/statistics), compare_layout (no listed property), the Random-seeded constructors (format(Random,min,max) is covered: range + reproducibility), convert/clone of ranged views (asserted), CUDA/MKL back ends"};
   spec.max_samples = 8;
   if(const char* mr = std::getenv("VERIF_MAX_REPORT")) spec.max_report = size_t(atol(mr));
   return verif::run(spec, argc, argv, [&](verif::Ctx& c) {
@@ -1114,6 +1242,9 @@ int main(int argc, char** argv)
     run_kind<PowerVector<DVd, 3>>(c, "Power<DV,3><double>");
     run_kind<PowerVector<DVB2f, 2>>(c, "Power<DVB2,2><float>");
     run_kind<TupleVector<PowerVector<DVd, 2>, DVd>>(c, "Tuple<Power<DV,2>,DV><double>");
+    // the recursion anchors used on their own
+    run_kind<PowerVector<DVd, 1>>(c, "Power<DV,1><double>");
+    run_kind<TupleVector<DVB2f>>(c, "Tuple<DVB2><float>");
     run_sparse<double, 1>(c, "SparseVector<double>");
     run_sparse<float, 1>(c, "SparseVector<float>");
     run_sparse<double, 2>(c, "SparseVectorBlocked<double,2>");
@@ -1121,5 +1252,6 @@ int main(int argc, char** argv)
     // index type u32 (the duplicate marker of sort() is numeric_limits<IT>::max())
     run_sparse<double, 1, unsigned int>(c, "SparseVector<double,u32>", 1);
     run_sparse<float, 2, unsigned int>(c, "SparseVectorBlocked<float,u32,2>", 1);
+    extra_sections(c);
   });
 }
